@@ -87,7 +87,9 @@ def _rand_int_tree(struct, rng):
     return jax.tree.unflatten(treedef, arrs)
 
 
-def _close(got, want, tol):
+def _close(got, want, tol, rel=False):
+    """rel=True: error relative to the magnitude of the expected (spec) matrix, however small;
+    otherwise relative to max(1, magnitude) - for vectors computed from O(1) inputs."""
     import numpy as np
 
     got = np.asarray(got, dtype=np.float64)
@@ -97,7 +99,7 @@ def _close(got, want, tol):
         return True, 0.0
     if not np.all(np.isfinite(got)):
         return False, float('inf')
-    scale = float(np.max(np.abs(want))) or 1.0      # relative to the magnitude of the expected matrix
+    scale = (float(np.max(np.abs(want))) or 1.0) if rel else max(1.0, float(np.max(np.abs(want))))
     err = float(np.max(np.abs(got - want)))
     return bool(err <= tol * scale), err
 
@@ -153,7 +155,7 @@ def execute(case: dict) -> dict:
     M = None
     try:
         M = terms.dense_of(op)
-        o['dense_ok'], o['dense_err'] = _close(M, want, tol)
+        o['dense_ok'], o['dense_err'] = _close(M, want, tol, rel=True)
     except Exception as exc:
         o['dense_exc'] = f'{type(exc).__name__}: {str(exc)[:300]}'
 
@@ -189,11 +191,11 @@ def execute(case: dict) -> dict:
     if 'M' in groups and M is not None:
         def m_group():
             am = np.asarray(op.as_matrix(), dtype=np.float64)
-            o['as_matrix_ok'], o['as_matrix_err'] = _close(am, want, tol)
+            o['as_matrix_ok'], o['as_matrix_err'] = _close(am, want, tol, rel=True)
             o['as_matrix_vs_basis'], _ = _close(am, M, tol)
             if case.get('generic'):
                 gm = np.asarray(AbstractLinearOperator.as_matrix(op), dtype=np.float64)
-                o['generic_ok'], o['generic_err'] = _close(gm, want, tol)
+                o['generic_ok'], o['generic_err'] = _close(gm, want, tol, rel=True)
             # linearity witnesses: integer combinations with mixed signs
             lin_ok = True
             for (a, c) in ((2.0, -3.0), (-1.0, 1.0), (0.5, 4.0)):
@@ -215,10 +217,10 @@ def execute(case: dict) -> dict:
             t = op.T
             o['T_is_self'] = t is op
             Mt = terms.dense_of(t)
-            o['T_ok'], o['T_err'] = _close(Mt, want.T, tol)
+            o['T_ok'], o['T_err'] = _close(Mt, want.T, tol, rel=True)
             o['T_structs'] = (t.in_structure() == op.out_structure()) and (t.out_structure() == op.in_structure())
             tt = t.T
-            o['TT_ok'], o['TT_err'] = _close(terms.dense_of(tt), want, tol)
+            o['TT_ok'], o['TT_err'] = _close(terms.dense_of(tt), want, tol, rel=True)
             o['TT_structs'] = (tt.in_structure() == op.in_structure()) and (tt.out_structure() == op.out_structure())
             x = _rand_int_tree(op.in_structure(), rng)
             y = _rand_int_tree(op.out_structure(), rng)
@@ -283,9 +285,9 @@ def execute(case: dict) -> dict:
                 Mi = terms.dense_of(inv)
                 o['I_finite'] = bool(np.all(np.isfinite(Mi)))
                 if wanti is not None:
-                    o['I_ok'], o['I_err'] = _close(Mi, wanti, itol)
+                    o['I_ok'], o['I_err'] = _close(Mi, wanti, itol, rel=True)
                     ami = np.asarray(inv.as_matrix(), dtype=np.float64)
-                    o['I_as_matrix_ok'], _ = _close(ami, wanti, itol)
+                    o['I_as_matrix_ok'], _ = _close(ami, wanti, itol, rel=True)
                     o['I_as_matrix_finite'] = bool(np.all(np.isfinite(ami)))
                 if case['invertible'] or is_mvax:
                     x = _rand_int_tree(op.in_structure(), rng)
@@ -293,7 +295,7 @@ def execute(case: dict) -> dict:
                     y = _rand_int_tree(op.out_structure(), rng)
                     o['I_right'], _ = _close(terms.flatten_value(op(inv(y))), terms.flatten_value(y), itol * 20)
                     ii = inv.I
-                    o['II_ok'], o['II_err'] = _close(terms.dense_of(ii), want, itol)
+                    o['II_ok'], o['II_err'] = _close(terms.dense_of(ii), want, itol, rel=True)
         guarded('I', i_group)
     return out
 
